@@ -77,7 +77,29 @@ def run_case(case):
 	old = sys.stdout
 	sys.stdout = buf = io.StringIO()
 	try:
-		cli.main(['tree', '--no-progress', '-k', '6', '-p', 'AT'] + paths, standalone_mode=False)
+		if case['kind'] == 'cli_sigs':
+			# the signature-file channel: labels are the stored ids
+			import tempfile, shutil
+			tmp = tempfile.mkdtemp(prefix='c17_')
+			try:
+				sf = os.path.join(tmp, 'q.gs')
+				cli.main(['signatures', 'create', '--no-progress', '-k', '6', '-p', 'AT', '-o', sf] + paths, standalone_mode=False)
+				cli.main(['tree', '--no-progress', '-s', sf], standalone_mode=False)
+			finally:
+				shutil.rmtree(tmp, ignore_errors=True)
+		elif case['kind'] == 'cli_list':
+			import tempfile, shutil
+			tmp = tempfile.mkdtemp(prefix='c17_')
+			try:
+				lf = os.path.join(tmp, 'l.txt')
+				open(lf, 'w').write(''.join(os.path.basename(p) + '\n' for p in paths))
+				cli.main(['tree', '--no-progress', '-k', '6', '-p', 'AT', '-l', lf, '--ldir', gdir], standalone_mode=False)
+			finally:
+				shutil.rmtree(tmp, ignore_errors=True)
+		else:
+			cli.main(['tree', '--no-progress', '-k', '6', '-p', 'AT'] + paths, standalone_mode=False)
+	except SystemExit:
+		pass
 	finally:
 		sys.stdout = old
 	tree = Phylo.read(io.StringIO(buf.getvalue()), 'newick')
@@ -93,8 +115,8 @@ def bounded(tier, seed):
 	cases = []
 	for _ in range(60 if tier == 'quick' else 1500):
 		cases.append({'kind': 'library', 'seed': rnd.randrange(10 ** 6), 'n': rnd.choice([2, 3, 4, 5, 8, 13]), 'ties': rnd.random() < .5, 'identical': rnd.random() < .3})
-	for _ in range(4 if tier == 'quick' else 30):
-		cases.append({'kind': 'cli', 'seed': rnd.randrange(10 ** 6), 'n': rnd.choice([2, 3, 5, 9])})
+	for _ in range(6 if tier == 'quick' else 40):
+		cases.append({'kind': rnd.choice(['cli', 'cli_sigs', 'cli_list']), 'seed': rnd.randrange(10 ** 6), 'n': rnd.choice([2, 3, 5, 9])})
 	n, failures, sample = 0, [], []
 	for c in cases:
 		r = run_case(c)
@@ -105,5 +127,5 @@ def bounded(tier, seed):
 			failures.append({'case': c, 'expected': r.get('expected'), 'actual': r.get('actual'), 'class': c['kind']})
 			if len(failures) >= 3:
 				break
-	return {'tool': 'real hclust + linkage_to_bio_tree on random matrices (zeros, ties, identical genomes) and the real `gambit tree` command, against scipy cophenetic distances',
+	return {'tool': 'real hclust + linkage_to_bio_tree on random matrices (zeros, ties, identical genomes) and the real `gambit tree` command (files, list file, signature file), against scipy cophenetic distances',
 	        'bound': f'{len(cases)} cases, <= 13 leaves', 'cases': n, 'failures': failures, 'samples': sample}
